@@ -155,8 +155,10 @@ class Gen:
 
     def n_sub(self, depth):
         r = self.r
+        how = r.choice(['var', 'var', 'var', 'kw', 'client', 'call', 'if'])
         if self.subs and (len(self.subs) >= 2 or r.random() < 0.4):
-            return {'k': 'sub', 'name': r.choice(sorted(self.subs))}
+            return {'k': 'sub', 'name': r.choice(sorted(self.subs)),
+                    'how': how}
         name = 'T%d' % (len(self.subs) + 1)
         self.subs[name] = None          # reserve (no recursion)
         saved = self.enabled
@@ -166,7 +168,7 @@ class Gen:
         self.subs[name] = {'body': b, 'defaults':
                            r.choice([{}, {'dflt': 'd'}, {'dflt': 'd',
                                                          'd2': 2}])}
-        return {'k': 'sub', 'name': name}
+        return {'k': 'sub', 'name': name, 'how': how}
 
     def n_if(self, depth):
         r = self.r
